@@ -4,6 +4,7 @@
 use crate::cli::ReadEnd;
 use crate::engine::{Outcome, Part, Tier, WorkerCtx};
 use crate::mock::EvKind;
+use crate::proto;
 use crate::pgc::{PgcatConfig, PoolDef, ServerDef, ShardDef, UserDef};
 use crate::refhash;
 use crate::wire::{self, BackendSpec, Env};
@@ -19,6 +20,8 @@ pub enum Step {
     CommentShard(u8),
     LiteralKey(i64, u8),
     ShowShard,
+    /// Parse/Bind/Execute/Sync in one batch, the key is a bound parameter: (key, binary?, binary width 2/4/8, named statement?, an unrelated parameter first?)
+    BindKey(i64, bool, u8, bool, bool),
     /// RELOAD with a configuration that has this many shards and this sharding function; the connected client goes on
     Reload(u8, bool),
 }
@@ -29,6 +32,12 @@ pub struct Case {
     pub sha1: bool,
     pub replicas: bool,
     pub steps: Vec<Step>,
+    /// db_activity_based_routing on (short init delay): role decisions change, shard decisions must not
+    #[serde(default)]
+    pub activity: bool,
+    /// prepared_statements_cache_size (0 = off)
+    #[serde(default)]
+    pub stmt_cache: u8,
 }
 
 pub struct WirePart;
@@ -45,7 +54,7 @@ impl Part for WirePart {
         true
     }
     fn rule(&self) -> String {
-        "2..5 or 11..13 shards (one mock primary each, optionally a replica), pg_bigint_hash or sha1; sessions of 2..10 steps over {SET SHARD n (in and out of range), SET SHARDING KEY k, plain tagged query, query with sharding_key / shard_id comment, query with a literal equated to the automatic sharding key (4 shapes), SHOW SHARD, RELOAD to another shard count / sharding function while the client stays connected}; model = sticky shard selection with the reference partition function; oracle: each tagged statement is logged by a backend of the model's shard, out-of-range SET SHARD answers an error and leaves the selection, SHOW SHARD prints the model's value. Non-trivial = at least two different shards selected in the session or an out-of-range SET SHARD".into()
+        "2..5 or 11..13 shards (one mock primary each, optionally a replica), pg_bigint_hash or sha1, db_activity_based_routing on in 30% of the cases, statement cache off/1/8; sessions of 2..10 steps over {SET SHARD n (in and out of range), SET SHARDING KEY k, plain tagged query, query with sharding_key / shard_id comment, query with a literal equated to the automatic sharding key (4 shapes), a Parse/Bind/Execute/Sync batch whose bound parameter (text, or binary of width 2/4/8, unnamed or named statement, optionally after an unrelated parameter; negative keys too) is equated to the automatic sharding key, SHOW SHARD, RELOAD to another shard count / sharding function while the client stays connected}; model = sticky shard selection with the reference partition function; oracle: each tagged statement is logged by a backend of the model's shard, out-of-range SET SHARD answers an error and leaves the selection, SHOW SHARD prints the model's value. Non-trivial = at least two different shards selected in the session or an out-of-range SET SHARD".into()
     }
     fn cases(&self, tier: Tier) -> u64 {
         tier.pick(1_000, 12_000)
@@ -58,12 +67,21 @@ impl Part for WirePart {
             4 => Just(Step::Query),
             2 => key.clone().prop_map(Step::CommentKey),
             1 => (0u8..16).prop_map(Step::CommentShard),
-            3 => (key, 0u8..4).prop_map(|(k, s)| Step::LiteralKey(k, s)),
+            3 => (key.clone(), 0u8..4).prop_map(|(k, s)| Step::LiteralKey(k, s)),
+            3 => (any::<i64>(), key, any::<bool>(), prop_oneof![Just(2u8), Just(4u8), Just(8u8)], any::<bool>(), any::<bool>(), any::<bool>())
+                .prop_map(|(anyk, posk, binary, width, named, extra, neg)| Step::BindKey(if neg { anyk } else { posk }, binary, width, named, extra)),
             2 => Just(Step::ShowShard),
             1 => (2u8..=5, any::<bool>()).prop_map(|(n, sha1)| Step::Reload(n, sha1)),
         ];
-        (prop_oneof![4 => 2u8..=5, 2 => 11u8..=13], prop::bool::weighted(0.25), prop::bool::weighted(0.3), prop::collection::vec(step, 2..11))
-            .prop_map(|(shards, sha1, replicas, steps)| Case { shards, sha1, replicas, steps })
+        (
+            prop_oneof![4 => 2u8..=5, 2 => 11u8..=13],
+            prop::bool::weighted(0.25),
+            prop::bool::weighted(0.3),
+            prop::collection::vec(step, 2..11),
+            prop::bool::weighted(0.3),
+            prop_oneof![Just(0u8), Just(1u8), Just(8u8)],
+        )
+            .prop_map(|(shards, sha1, replicas, steps, activity, stmt_cache)| Case { shards, sha1, replicas, steps, activity, stmt_cache })
             .boxed()
     }
     fn run(&self, c: &Case, ctx: &mut WorkerCtx) -> Outcome {
@@ -72,10 +90,10 @@ impl Part for WirePart {
 }
 
 fn config(mocks: &[crate::mock::MockServer], c: &Case) -> PgcatConfig {
-    config_for(mocks, c.shards, c.sha1, c.replicas)
+    config_for(mocks, c.shards, c.sha1, c.replicas, c)
 }
 
-fn config_for(mocks: &[crate::mock::MockServer], n_shards: u8, sha1: bool, replicas: bool) -> PgcatConfig {
+fn config_for(mocks: &[crate::mock::MockServer], n_shards: u8, sha1: bool, replicas: bool, c: &Case) -> PgcatConfig {
     let mut cfg = PgcatConfig::new();
     cfg.set_general("connect_timeout", "2000");
     let per = if replicas { 2 } else { 1 };
@@ -103,6 +121,15 @@ fn config_for(mocks: &[crate::mock::MockServer], n_shards: u8, sha1: bool, repli
         shards,
         raw_tail: String::new(),
     });
+    if c.activity {
+        let p = cfg.pools.last_mut().unwrap();
+        p.set("db_activity_based_routing", "true");
+        p.set("db_activity_init_delay", "150");
+        p.set("table_mutation_cache_ms_ttl", "300");
+    }
+    if c.stmt_cache > 0 {
+        cfg.pools.last_mut().unwrap().set("prepared_statements_cache_size", &c.stmt_cache.to_string());
+    }
     cfg
 }
 
@@ -142,18 +169,66 @@ async fn run_case(c: &Case, ctx: &mut WorkerCtx) -> Outcome {
     if c.shards > 10 {
         o.label("more_than_10_shards");
     }
-    for st in &c.steps {
+    if c.activity {
+        o.label("activity_routing");
+    }
+    for (idx, st) in c.steps.iter().enumerate() {
         o.sub_evaluations += 1;
         // (sql, tagged?, expected shard change)
         let mut tag = None;
+        let mut batch: Option<Vec<u8>> = None;
         let sql = match st {
+            Step::BindKey(k, binary, width, named, extra) => {
+                let t = cli.tag();
+                tag = Some(t);
+                let key: i64 = if *binary {
+                    match width {
+                        2 => *k as i16 as i64,
+                        4 => *k as i32 as i64,
+                        _ => *k,
+                    }
+                } else {
+                    *k
+                };
+                shard = Some(reff(key, cur_n, cur_sha1));
+                let sql = if *extra {
+                    format!("{} SELECT * FROM data WHERE v = $1 AND id = $2", t.render())
+                } else {
+                    format!("{} SELECT * FROM data WHERE id = $1", t.render())
+                };
+                let keyval: Vec<u8> = if *binary {
+                    match width {
+                        2 => (key as i16).to_be_bytes().to_vec(),
+                        4 => (key as i32).to_be_bytes().to_vec(),
+                        _ => key.to_be_bytes().to_vec(),
+                    }
+                } else {
+                    key.to_string().into_bytes()
+                };
+                let kf: i16 = if *binary { 1 } else { 0 };
+                let (formats, params): (Vec<i16>, Vec<Option<Vec<u8>>>) = if *extra {
+                    (vec![0, kf], vec![Some(b"abc".to_vec()), Some(keyval)])
+                } else if *binary {
+                    (vec![1], vec![Some(keyval)])
+                } else {
+                    (vec![], vec![Some(keyval)])
+                };
+                let name = if *named { format!("st{}", idx) } else { String::new() };
+                let mut b = proto::parse(&name, &sql, &[]);
+                b.extend_from_slice(&proto::bind("", &name, &formats, &params, &[]));
+                b.extend_from_slice(&proto::execute("", 0));
+                b.extend_from_slice(&proto::sync());
+                batch = Some(b);
+                o.label(if *binary { "bind_binary" } else { "bind_text" });
+                sql
+            }
             Step::SetShard(s) => format!("SET SHARD TO '{}'", s),
             Step::SetKey(k) => format!("SET SHARDING KEY TO '{}'", k),
             Step::ShowShard => "SHOW SHARD".to_string(),
             Step::Reload(n, sha1) => {
                 // new file, RELOAD through the admin console (answered when the reload is done), then an explicit selection
                 // that is valid under both configurations
-                let toml = config_for(&env.mocks, *n, *sha1, c.replicas).to_toml(env.pg.port);
+                let toml = config_for(&env.mocks, *n, *sha1, c.replicas, c).to_toml(env.pg.port);
                 env.pg.write_config(&toml);
                 let ok = match env.admin().await {
                     Ok(mut a) => {
@@ -201,7 +276,16 @@ async fn run_case(c: &Case, ctx: &mut WorkerCtx) -> Outcome {
                 }
             }
         };
-        let (m, e) = cli.simple(&sql, wire::T_REPLY).await;
+        let (m, e) = match &batch {
+            Some(b) => {
+                if cli.send(b).await {
+                    cli.read_until_ready(wire::T_REPLY).await
+                } else {
+                    (vec![], ReadEnd::Closed)
+                }
+            }
+            None => cli.simple(&sql, wire::T_REPLY).await,
+        };
         if !matches!(e, ReadEnd::Ready(_)) {
             o.inconclusive = Some(format!("{:?} ended {:?}", sql, e));
             break;
@@ -266,6 +350,8 @@ async fn run_case(c: &Case, ctx: &mut WorkerCtx) -> Outcome {
                         Step::Query => "sticky",
                         Step::CommentKey(_) => "comment_key",
                         Step::CommentShard(_) => "comment_shard",
+                        Step::BindKey(_, true, ..) => "bind_binary",
+                        Step::BindKey(..) => "bind_text",
                         _ => "literal",
                     };
                     o.fail(
